@@ -278,6 +278,7 @@ func runC09(c *Ctx) {
 	ruleArgumentOnlyWhenUnsupplied(c, "C09.7")
 	ruleProvidersInDeclOrder(c, "C09.12")
 	ruleProviderTypeResultsFresh(c, "C09.13")
+	ruleVarDeclByName(c, "C09.14")
 	ruleTypeIdentity(c, "C09.8", genPkg)
 
 	// ---- C09.6 safety net in Build
@@ -788,6 +789,29 @@ func c09SupplierMap(c *Ctx, rule string) {
 			for _, t := range okTestsOf(lk) {
 				if ok2, _ := allPathsReturnNonNil(t.notFound, map[*ssa.BasicBlock]bool{}); ok2 && errorReturnMentions(t.notFound, lk.Index) {
 					okOrphan = true
+				}
+			}
+			// and no Struct annotation gets past the test: inside the loop over the expansions the lookup lies on every way to
+			// the next iteration (a `continue` in front of it - "nothing to expand" - lets an orphan through)
+			var hdr *ssa.BasicBlock
+			for d := b.Idom(); d != nil; d = d.Idom() {
+				isHeader := false
+				for _, pr := range d.Preds {
+					if d.Dominates(pr) {
+						isHeader = true
+					}
+				}
+				if isHeader && reachable(b, d) {
+					hdr = d
+					break
+				}
+			}
+			if hdr != nil {
+				for _, pr := range hdr.Preds {
+					if hdr.Dominates(pr) && !b.Dominates(pr) {
+						c.fail(rule, "NewGraph:orphan-struct-bypass", L.pos(pr.Instrs[len(pr.Instrs)-1].Pos()),
+							"the next Struct annotation can be reached without the supplier test of this one (an orphan Struct would be accepted silently)")
+					}
 				}
 			}
 		}
